@@ -199,7 +199,9 @@ fn run_scenario(sc: &Value) {
     let t0 = Instant::now();
     for j in joins {
         // a caller that never comes back is a lost completion: leave it to the scenario's time limit
-        while !j.is_finished() && t0.elapsed() < Duration::from_secs(8) {
+        // (a read through the ring completes at the event loop's next round, up to 10 ms later: bursts need time)
+        let limit = Duration::from_secs(8) + Duration::from_millis(20 * sc["rounds"].as_u64().unwrap_or(0));
+        while !j.is_finished() && t0.elapsed() < limit {
             std::thread::sleep(Duration::from_millis(2));
         }
         if j.is_finished() {
